@@ -19,6 +19,7 @@ done={
  'C13':('model_checking',MC,"all command/environment sequences up to depth D on the production TcpChannelTask (connector seam); listener path, fast NoConnection failures, connect attempts, transport closure and task termination compared with the reference automaton"),
  'C14':('model_checking',MC,"strategy object: all lattice (min,max) pairs x all call sequences up to length L; task level: all connect-outcome sequences up to depth D under the paused clock, announced delay = reference delay = delay actually waited"),
  'C17':('model_checking',MC,"all 256 destinations x 27 request kinds x 4 unit maps x 2 framings on fresh sessions plus all sequences up to depth D over a 12-symbol broadcast/unicast alphabet"),
+ 'C20':('model_checking',MC,"differential and reference-model oracle: every explored server sequence, framing stream (each chunking) and client event path is re-executed at the lowest and highest decode level and with a set_decode_level command inserted at every position (also between two chunks of one frame and during an outstanding transaction); all observations must be identical"),
 }
 commits=subprocess.run(['git','-C','/repo','log','--format=%h %s'],capture_output=True,text=True).stdout.splitlines()
 hooks=[c.split()[0] for c in commits if c.split(' ',1)[1].startswith('verif-hooks')]
